@@ -337,6 +337,9 @@ class error_999_visitor(pyx12.error_visitor.error_visitor):
                 seg_data = pyx12.segment.Segment(seg_str, '~', '*', ':')
                 seg_data.set('IK403', err_cde)
                 if bad_value:
-                    seg_data.set('IK404', bad_value)
+                    # the echoed value must not add or split elements or segments of this document
+                    for term in (self.seg_term, self.ele_term, self.subele_term, self.repetition_term):
+                        bad_value = bad_value.replace(term, ' ')
+                    seg_data.set('IK404-1', bad_value)
 # todo: add element context
                 self.wr.Write(seg_data)
